@@ -158,6 +158,7 @@ def shard_main(argv):
     rng = random.Random(seed * 1000 + shard)
     status = 'ok'
     err = None
+    slow = []
     try:
         if hasattr(mod, 'shard_setup'):
             mod.shard_setup(rec, tier)
@@ -166,13 +167,19 @@ def shard_main(argv):
                 rec.note('stopped_on_budget', True)
                 break
             rec.current_case = case
+            t_case = time.monotonic()
             mod.execute(rec, case)
+            dt_case = time.monotonic() - t_case
+            if dt_case > 3.0:
+                slow.append((round(dt_case, 1), jsonable(case)))
         rec.current_case = None
         if hasattr(mod, 'shard_finish'):
             mod.shard_finish(rec, tier)
     except BaseException:  # harness failure, not a verdict
         status = 'harness-error'
         err = traceback.format_exc()
+    if slow:
+        rec.note('slow_cases_shard_%d' % shard, sorted(slow, key=lambda x: -x[0])[:3])
     out = rec.dump()
     out['status'] = status
     out['error'] = err
